@@ -224,7 +224,7 @@ pub fn match_record_sel(
 ) -> Option<Value> {
   let is_cut = extra["mode"] == "cut";
   let rt = if is_cut { reference_table_sel(lang, pattern_text, cand.kind_id(), selector.map(|s| s.1)) } else { None };
-  if selector.is_some() && rt.is_none() {
+  if is_cut && selector.is_some() && rt.is_none() {
     return None; // the selector does not denote the cut site in this context: not a case of the property
   }
   let p = proj::project(cand, true);
